@@ -16,8 +16,8 @@ pub static DEF: PropDef = PropDef {
     level: "exploration",
     rule: "each case: a byte stream from one of three producers — (a) the real writer on a random conformant tree with mixed options, (b) the reference encoder with hostile-but-valid choices (size widths 1-8, unknown-size masters of every all-ones width closed by sibling/ancestor/root/exhausted parent/EOF, zero-padded and 0-length integers, 4-byte floats), (c) 1-3 random mutations (bit flips, inserts, deletes, size-field rewrites, id swaps, subtree copies) of (a)/(b). If the real strict iterator reads it cleanly from a root element (pass 1), every item is written back through the real writer (all calls must succeed) and the output is read again (pass 2); pass-2 values must equal pass-1 values. For unmutated reference encodings pass 1 must also equal the semantic tree. distinct = hash of the input bytes; non-trivial iff the rewritten bytes differ from the input (something non-canonical was normalised) or an unknown-size master was present.",
     assumptions: &["streams that pass 1 rejects or that do not begin at a root element are vacuous (counted)", "the size limit is set to 16 MiB for pass 1 so that mutated size fields cannot request huge allocations"],
-    cases_quick: 8000,
-    cases_thorough: 400_000,
+    cases_quick: 300_000,
+    cases_thorough: 3_000_000,
     floors: &[("fixpoints_compared", 2500), ("distinct_nontrivial", 400), ("pass1_accepted_mutants", 50)],
     exhaustive_note: None,
     run,
